@@ -159,7 +159,10 @@ def main(pos, opts, seed, seeded=False):
                 results.append(res)
     finally:
         drop_scratch()
-    out = os.path.join(common.VERIF, "reports", ("seeded" if seeded else "sensitivity") + "-" + ("all" if not pos else pos[0]) + ".json")
+    tag = "" if seed == common.DEFAULT_SEED else "-seed%d" % seed
+    if opts.get("only"):
+        tag += "-only-" + opts["only"]
+    out = os.path.join(common.VERIF, "reports", ("seeded" if seeded else "sensitivity") + "-" + ("all" if not pos else pos[0]) + tag + ".json")
     json.dump({"seed": seed, "results": results}, open(out, "w"), indent=1)
     missed = [r for r in results if not r["detected"]]
     common.log("%d of %d changes detected; report: %s" % (len(results) - len(missed), len(results), out))
